@@ -307,7 +307,7 @@ class CallMixin:
                 old = pre
                 if c.modifies:
                     c.modifies(self, s2, NS(env, env, s2, old))
-                exc = VExc(cls, site=getattr(node, 'lineno', None))
+                exc = VExc(cls, site=getattr(node, 'lineno', None), declared=True)
                 ns2 = NS(env, env, s2, old)
                 if c.sets_exc:
                     for obj, fld, val in c.sets_exc(NS(env, env, s2, old), exc):
@@ -391,8 +391,9 @@ class CallMixin:
                 st.pc.append(z3.Implies(p, z3.Not(v.pred('isnone').t)))
                 parts.append(p)
             else:
-                py = {VInt: 'int', VBool: 'bool', VReal: 'float', VStr: 'str', VStrAcc: 'list', VNoneT: 'NoneType',
-                      VTuple: 'tuple', VList: 'list', VSeq: 'list', VFunc: 'function'}[type(v)]
+                py = v.pyclass if isinstance(v, VU) else \
+                    {VInt: 'int', VBool: 'bool', VReal: 'float', VStr: 'str', VStrAcc: 'list', VNoneT: 'NoneType',
+                     VTuple: 'tuple', VList: 'list', VSeq: 'list', VFunc: 'function'}.get(type(v), 'object')
                 parts.append(z3.BoolVal(self.src.is_subclass(py, c) or (py == 'bool' and c == 'int')))
         return z3.Or(*parts) if len(parts) != 1 else parts[0]
 
